@@ -31,6 +31,18 @@ def _standin(rep, tier, seed, only_search=False):
         checks = []
         if G:
             checks.append(("additive", np.max(np.abs(ic.transform(pi, F + G) - (I_F + ic.transform(pi, G)))) <= tol, {"F": F, "G": G}))
+        # points far outside the imaged region (tens to hundreds of kernel widths away, in birth or in persistence) contribute
+        # numerically nothing - and must not change what the other points contribute, wherever they stand in the diagram
+        kp = cfg["kernel_params"]
+        width = max(kp.get("width", 0), kp.get("height", 0)) if cfg["kernel"] == "uniform" else float(np.sqrt(np.max(np.abs(np.array(kp["sigma"], dtype=float)))))
+        far = rng.choice([45, 80, 300]) * max(width, 1e-3)
+        b0 = rng.uniform(*cfg["birth_range"])
+        pt = rng.choice([[b0, b0 + cfg["pers_range"][1] + far], [cfg["birth_range"][0] - far, cfg["birth_range"][0] - far + cfg["pers_range"][1] + far],
+                         [cfg["birth_range"][1] + far, cfg["birth_range"][1] + far + rng.uniform(0, 1)], [cfg["birth_range"][0] - far, cfg["birth_range"][0] - far + rng.uniform(0.1, 1)]])
+        Ffar = F[:]
+        Ffar.insert(rng.randint(0, len(F)), pt)
+        tol_far = ic.pixel_tol(Ffar, cfg) * 4
+        checks.append(("additive-far-point", np.max(np.abs(ic.transform(pi, Ffar) - (I_F + ic.transform(pi, [pt])))) <= tol_far, {"F": F, "with_far_point": Ffar}))
         perm = F[:]
         rng.shuffle(perm)
         checks.append(("order-free", np.max(np.abs(ic.transform(pi, perm) - I_F)) <= tol, {"F": F, "perm": perm}))
